@@ -35,7 +35,7 @@ class LeastSquaresStub:
         self.calls.append(call)
         outcome = h.choice(f'{self.name}{n}_outcome', 3)       # 0 success, 1 reports failure, 2 raises ValueError
         if outcome == 2:
-            raise ValueError('stub: x0 is infeasible')
+            raise symx.simulated(ValueError('stub: x0 is infeasible'))
         if outcome == 1:
             return stubs.OptRes(success=False, message='stub: did not converge', x=x0, fun=None)
         m = len(list(x0))
